@@ -315,7 +315,7 @@ func (r *rwRT) ruleTmplForThunks() {
 		paths := 0
 		for _, inp := range inputs {
 			st := newState()
-			y := st.alloc(&Obj{Kind: 's', Fields: map[string]AV{"seqImportedName": mkString("seq"), "funRetParamTy": exprLeaf(r, "T")}})
+			y := r.newYieldAst(st, "seq", exprLeaf(r, "T"))
 			in := r.interp(rwConfig{root: fn, inlineAll: true})
 			// the statement may be inspected: a bare call statement with a callee and no arguments
 			if which == "ForPostFun" {
@@ -366,7 +366,7 @@ func (r *rwRT) ruleTmplFor() {
 				post = typedNil
 			}
 			st := newState()
-			y := st.alloc(&Obj{Kind: 's', Fields: map[string]AV{"seqImportedName": mkString("seq"), "funRetParamTy": r.node("Ident", "T")}})
+			y := r.newYieldAst(st, "seq", r.node("Ident", "T"))
 			in := r.interp(rwConfig{root: fn, inlineAll: true})
 			outs := in.Run(st, fn, []AV{y, cond, post, r.node("CallExpr", "body")}, nil)
 			r.account(in)
